@@ -93,10 +93,12 @@ def run(tier, seed, build=True):
         sets = build_sets(work, tier)
         opts = []
         for f, al, tz, df, ps, (sa, sb) in itertools.product([None, "-n", "-p"], [False, True], [(None, 0), ("-u", 0)], [None, "%s"], [":", " - "],
-                                                               [("", b""), ("XX", b"XX"), ("\\n", b"\n")]):
+                                                               [("", b""), ("XX", b"XX"), ("\\n", b"\n"), ("\u00a7\u2192", "\u00a7\u2192".encode("utf-8"))]):
             if al and not f:
                 continue
             if tier == "quick" and (ps != ":" and sa == "\\n"):
+                continue
+            if tier == "quick" and sa == "\u00a7\u2192" and (al or df is not None or ps != ":"):
                 continue
             opts.append({"file": f, "align": al, "tz": tz[0], "tz_min": tz[1], "dfmt": df, "psep": ps, "sep_arg": sa, "sepb": sb})
         for sname, paths, known in sets:
@@ -191,6 +193,13 @@ def run(tier, seed, build=True):
                     missing = False
                     for w in wsrc:
                         if not w.msgs:
+                            # a source that printed nothing reports nothing printed
+                            key0 = w.arg if w.arg in files else w.display if w.display in files else None
+                            if key0 is None:
+                                cand0 = [k for k in files if k.endswith(w.display)]
+                                key0 = cand0[0] if cand0 else None
+                            if key0 is not None and (toint(files[key0].get("bytes")) or 0) > 0:
+                                bad("per-file-counts-of-a-silent-file", "file %s printed nothing but its `Printed:` section reports %s bytes" % (w.display, files[key0].get("bytes")))
                             continue
                         key = w.arg if w.arg in files else w.display if w.display in files else None
                         if key is None:
